@@ -117,6 +117,23 @@ def snapshot(d):
     return {k: frozenset((to_poly(v) or {}).items()) if to_poly(v) is not None else repr(v) for k, v in d.items()}
 
 
+def book(m):
+    """bookkeeping of a model object as the user sees it (for 'argument not modified' checks that look beyond the terms)"""
+    out = []
+    for attr in ('variables', 'mapping', 'reverse_mapping', 'num_binary_variables', 'degree', 'num_terms', 'name', 'num_ancillas'):
+        try:
+            v = getattr(m, attr)
+        except Exception:      # noqa
+            continue
+        if isinstance(v, (set, frozenset)): v = sorted(map(repr, v))
+        elif isinstance(v, dict): v = sorted((repr(a), repr(b)) for a, b in v.items())
+        out.append((attr, repr(v)))
+    cons = getattr(m, 'constraints', None)
+    if isinstance(cons, dict):
+        out.append(('constraints', repr(sorted((k, [sorted((repr(kk), repr(vv)) for kk, vv in c.items()) for c in v]) for k, v in cons.items()))))
+    return tuple(out)
+
+
 def canon_key(k, spin):
     k = as_key(k)
     if spin:
